@@ -1083,8 +1083,14 @@ func (c *compiler) evalStatement(node ast.Statement) (interface{}, error) {
 	case *ast.ExpressionStatement:
 		s, err := c.evalExpression(t.Expression)
 		switch s.(type) {
-		case exitBlockStatment, ast.Printable, template.HTML:
+		case exitBlockStatment, ast.Printable:
 			return s, err
+		case template.HTML:
+			// literal template text inside a block is output; the value of a silent
+			// tag (<% raw("...") %>) is not
+			if _, ok := t.Expression.(*ast.HTMLLiteral); ok {
+				return s, err
+			}
 		}
 
 		return nil, err
